@@ -216,4 +216,9 @@ CellNorm(kind) ==
       [] kind = "int" -> "int"
       [] kind = "float" -> "num"
       [] OTHER -> "py"
+
+\* xlsx_extractor.py:_read_sheet_data -- the first row of a sheet becomes the header row of sheet.data.
+\* How a typed header cell is rendered is not documented (today: str(value), "Unnamed: i" for empty cells):
+\* DON'T-CARE which JSON scalar it becomes, but it must be one.
+HeaderCellOK(tag) == tag \in {"null", "str", "bool", "int", "num"}
 =============================================================================
